@@ -1,4 +1,5 @@
 import AranyaV.Spec.Sym
+import AranyaV.Gen.EnvelopeC35
 /-!
 # Model.Envelope — what a replica checks before it accepts a received command (C35)
 
@@ -100,10 +101,34 @@ abbrev OpenFn := Term → Term → Env → Verdict
 /-- the `policy` block's verdict: (command name, payload, envelope) -/
 abbrev RuleFn := Term → Term → Env → Bool
 
-/-- the envelope `call_rule` builds: the RECEIVED command's id, its parent id, the author id and
-the signature from the payload -/
+/-- an id `call_rule` can put into the envelope -/
+def pickId (c : WireCmd) : Gen.C35.IdSrc → Term
+  | .zero => zeroId
+  | .parentId => match c.parent with
+    | .single p => p
+    | _ => zeroId
+  | .receivedId => c.id
+
+/-- a field of the decoded payload -/
+def pickPl (p : Payload) : Gen.C35.PlSrc → Term
+  | .author => p.author
+  | .kind => p.kind
+  | .fields => p.fields
+  | .signature => p.sig
+
+/-- `let parent_id = match command.parent() { .. }` with the arms as they are in the source
+(`Gen.C35`, regenerated from vm_policy.rs on every run) -/
+def recvParentId (c : WireCmd) : Term :=
+  match c.parent with
+  | .none => pickId c Gen.C35.envParentOfNone
+  | .single _ => pickId c Gen.C35.envParentOfSingle
+  | .merge => zeroId
+
+/-- the envelope `call_rule` builds, field sources as in the source: by `envelope_sources`
+(Props.C35) these are the RECEIVED command's parent id and id, and the author id and the
+signature from the payload -/
 def envelopeOf (c : WireCmd) (p : Payload) : Env :=
-  ⟨parentIdOf c.parent, p.author, c.id, p.sig⟩
+  ⟨recvParentId c, pickPl p Gen.C35.envAuthor, pickId c Gen.C35.envCommandId, pickPl p Gen.C35.envSignature⟩
 
 def placementOk : Placement → Bool → Bool
   | .atOrigin, true => true
@@ -118,22 +143,22 @@ def callRule (P : Policy) (opn : OpenFn) (rule : RuleFn) (pl : Placement) (c : W
     match c.data with
     | none => .err .read                       -- postcard::from_bytes failed
     | some p =>
-      -- `get_command_priority`: a name without definition gets the default `Basic(0)`
-      let expected := match P.defs p.kind with
-        | some d => d.prio
-        | none => Prio.basic 0
-      if c.prio ≠ expected then .err .internal
-      else
-        match P.defs p.kind with
-        | none => .err .internal               -- unknown command
-        | some d =>
+      -- the definition is looked up first (an unknown name from the peer is invalid input),
+      -- then the wire priority must be the one the policy gives that command
+      match P.defs p.kind with
+      | none => .err .internal                 -- unknown command
+      | some d =>
+        if c.prio ≠ d.prio then .err .internal
+        else
           if !placementOk pl d.persistent then .err .internal
           else if !P.deser p.kind p.fields then .err .read
           else
             let env := envelopeOf c p
             let opened := match pl with
-              | .inBraid => Verdict.ok           -- "Bypass real open and just deserialize."
-              | _ => opn p.kind p.fields env
+              | .inBraid =>                      -- "Bypass real open and just deserialize."
+                if Gen.C35.braidBypassesOpen then Verdict.ok
+                else opn (pickPl p Gen.C35.openName) (pickPl p Gen.C35.openPayload) env
+              | _ => opn (pickPl p Gen.C35.openName) (pickPl p Gen.C35.openPayload) env
             match opened with
             | .err e => .err e
             | .ok => if rule p.kind p.fields env then .ok else .err .rejected
